@@ -758,6 +758,22 @@ func ExprSource(e Expr) string {
 	return strings.TrimSpace(s.B.String())
 }
 
+// ExprSourceWith spells one expression under the given policy.
+func ExprSourceWith(e Expr, pol Policy) string {
+	s := NewSpeller(pol)
+	s.prev = "{{"
+	s.Expr(e)
+	return strings.TrimSpace(s.B.String())
+}
+
+// Wide puts a line break and a tab between any two tokens.
+type Wide struct{}
+
+func (Wide) WS(prev, next string, mayBeEmpty bool) string { return "\n\t" }
+func (Wide) Quote() byte                                  { return '"' }
+func (Wide) TrailingComma() bool                          { return true }
+func (Wide) Trim() bool                                   { return false }
+
 // FullParen wraps every compound sub-expression in a group, so that the spelled
 // text does not depend on operator precedence.
 func FullParen(e Expr) Expr {
